@@ -8,6 +8,7 @@ ENGINE = "pyvc executor's encoding of the Python subset (DESIGN 1.3): ints exact
 
 def C04():
     from contracts.replay_pagination import replay_row_metadata, replay_reserved_rows
+    from contracts.replay_docs import replayer_any as DA
     from contracts.pagination_core import AssignPages
     from contracts.replay_pagination import replay_assign_pages
     return Property(
@@ -20,7 +21,8 @@ def C04():
         trusted_base=[SOLVERS, ENGINE, POLARS],
         assumptions=["str() injective on non-null group keys of one dtype (the flag computation compares str(value))"],
         replayers={"pagination/core.py::PageBreakCalculator._assign_pages": replay_assign_pages, "pagination/core.py::PageBreakCalculator.calculate_row_metadata": replay_row_metadata,
-                   "services/document_service.py::": replay_reserved_rows},
+                   "services/document_service.py::": replay_reserved_rows, "pagination/strategies/": DA(["no_needless_break", "rows_per_page", "cells"]),
+                   "encoding/unified_encoder.py::": DA(["no_needless_break", "rows_per_page", "cells"])},
         design_ref="4/C04, A1",
     )
 
